@@ -73,7 +73,7 @@ func TestVerifC29(t *testing.T) {
 	rec := kit.Start(t, "C29", "keys")
 	defer rec.Finish()
 	env := rec.Env
-	n := env.Pick(60, 2000)
+	n := env.Pick(60, 1000)
 	for i := 0; i < n; i++ {
 		if !env.Mine(i) {
 			continue
